@@ -1,4 +1,8 @@
+#[cfg(not(pv_core))]
 pub mod keccak_ref;
+#[cfg(not(pv_core))]
 pub mod merkle_ref;
+#[cfg(not(pv_core))]
 pub mod poly_ref;
+#[cfg(not(pv_core))]
 pub mod poseidon_ref;
